@@ -125,7 +125,7 @@ def match_stream(ctx, family):
     ctx.cov['streams']['match-model-' + family] = dict(cases=n, nontrivial=nt, mismatches=len(mism), deadline_sensitive_diffs=slow,
                                                    stage_level_observations=nstage)
     ctx.assumptions.append('go-diff oracle: every recorded script checked to be a valid edit script between span and document (D1); '
-                           + stats + ' (scripts with an empty entry fall outside the no-empty-entry hypothesis D3 of the trimming theorem)')
+                           + stats + ' (scripts with an empty entry are covered too: the C02 bound is proved for any valid script, V2/ScoringNoD3.v)')
     if n:
         k = min(n - 1, 1 + ctx.seed % 7)
         ctx.cov['samples'].append({'stream': 'match-model', 'case': names[k], 'impl': impl[k][:300]})
